@@ -264,7 +264,14 @@ ROUND3 = {
     "C07": (" Also under contract now: _ThereCanBeOnlyOne.run/_cancel, there_can_be_only_one, the _done closure of _not_forever, "
             "Connection.startNegotiation, InboundConnectionFactory.buildProtocol/connectionWasMade, Common._start_connector and "
             "Common._connect (every attempt contends, the listener contends, one race under one 2*TIMEOUT deadline).",
-            " Still not under contract: Common.connect (inlineCallbacks wrapper), get_connection_hints/_get_direct_hints."),
+            " Round 4: Common.connect (inlineCallbacks: the transit key is awaited before anything is dialled, exactly one race, its "
+            "winner is returned, its failure propagates), Common._build_listener / _get_direct_hints / get_connection_hints (no direct "
+            "hint unless listening, listener started once, every published direct dict well-formed and faithful to its hint object, "
+            "lemma:published_direct_hint_parses_back with C20's parse contracts imported). NOT registered: that the relay dicts of "
+            "get_connection_hints reproduce the configured sub-hints unchanged (clause and loop invariant undecided). At a suspension "
+            "every field of self except is_sender/_side/_tor/_reactor/_no_listen/_transit_relays is havocked and the class invariants "
+            "(postconditions of add_connection_hints / _get_direct_hints) re-assumed; set_transit_key fires a registered waiter with "
+            "the key it stored (assumed, not under contract)."),
     "C10": (" Inbound.handle_open is verified on its real body (the former stub assumption is gone); the glue between the two sides is "
             "five discharged lemmas (new_connection_stream, stream_prefix_contiguous, ack_keeps_oldest_unacked_bound, "
             "write_keeps_oldest_unacked, exactly_once_step); Outbound.send_if_connected; the L2-to-Manager hand-over "
